@@ -213,3 +213,13 @@ def debug_logging():
             lg.setLevel(lvl)
         root.setLevel(saved_root)
         root.removeHandler(sink)
+
+
+@_contextlib.contextmanager
+def warnings_as_errors():
+    """The process environment of an application (or test run) started with
+    -W error: every warning is raised as an exception."""
+    import warnings
+    with warnings.catch_warnings():
+        warnings.simplefilter('error')
+        yield
